@@ -27,9 +27,11 @@ LIBS = ":".join(str(p) for p in sorted(SPEC.iterdir()) if p.is_dir()) if SPEC.ex
 NCPU = os.cpu_count() or 4
 
 
-def _java(xmx: str, extra_props=()):
+def _java(xmx: str, extra_props=(), tmp=None):
     libs = ":".join(str(p) for p in sorted(SPEC.iterdir()) if p.is_dir())
-    return ["java", "-XX:+UseParallelGC", f"-Xmx{xmx}", "-Xss64m", f"-DTLA-Library={libs}", *extra_props,
+    # TLC leaves an empty tlc-<n> directory in java.io.tmpdir on every start: keep it inside the check's own scratch directory
+    tmpprop = [f"-Djava.io.tmpdir={tmp}"] if tmp else []
+    return ["java", "-XX:+UseParallelGC", f"-Xmx{xmx}", "-Xss64m", f"-DTLA-Library={libs}", *tmpprop, *extra_props,
             "-cp", JAR, "tlc2.TLC"]
 
 
@@ -67,7 +69,7 @@ def mc(ck, module: str, cfg: str | None = None, workers: int | None = None, time
     mod = _find(module)
     cfgp = SPEC / ((cfg or module) + ".cfg")
     meta = ck.workdir / ("meta-" + mod.stem + "-" + cfgp.stem)
-    cmd = _java(xmx) + ["-workers", str(workers or NCPU), "-metadir", str(meta), "-noGenerateSpecTE",
+    cmd = _java(xmx, tmp=ck.workdir) + ["-workers", str(workers or NCPU), "-metadir", str(meta), "-noGenerateSpecTE",
                         "-config", str(cfgp)]
     if coverage:
         cmd += ["-coverage", "1"]
@@ -119,7 +121,7 @@ def simulate(ck, module: str, cfg: str, num: int, depth: int, seed: int, timeout
     d = ck.workdir / f"sim-{mod.stem}-{seed}"
     d.mkdir(parents=True, exist_ok=True)
     meta = ck.workdir / ("meta-sim-" + mod.stem)
-    cmd = _java("4g") + ["-simulate", f"file={d}/tr,num={num}", "-depth", str(depth), "-workers", "1", "-seed",
+    cmd = _java("4g", tmp=ck.workdir) + ["-simulate", f"file={d}/tr,num={num}", "-depth", str(depth), "-workers", "1", "-seed",
                          str(seed), "-metadir", str(meta), "-noGenerateSpecTE", "-config", str(cfgp), str(mod)]
     try:
         subprocess.run(cmd, capture_output=True, text=True, timeout=timeout, cwd=str(ck.workdir))
@@ -176,7 +178,7 @@ def _run_shard(module: Path, cfgp: Path, items: list, shard_no: int, workdir: Pa
     e = dict(os.environ)
     e.update(env)
     e["TRACE_FILE"] = str(f)
-    cmd = _java(xmx) + ["-workers", "1", "-metadir", str(meta), "-noGenerateSpecTE", "-config", str(cfgp), str(module)]
+    cmd = _java(xmx, tmp=workdir) + ["-workers", "1", "-metadir", str(meta), "-noGenerateSpecTE", "-config", str(cfgp), str(module)]
     try:
         p = subprocess.run(cmd, capture_output=True, text=True, timeout=timeout, cwd=str(workdir), env=e)
         out = p.stdout + p.stderr
